@@ -57,21 +57,26 @@ func init() {
 		if a == "-child" && i+1 < len(os.Args) {
 			if strings.HasPrefix(os.Args[i+1], "seq,") {
 				fmt.Println(completes(os.Args[i+1]))
+				cleanupTmp()
 				os.Exit(0)
 			}
 			if strings.HasPrefix(os.Args[i+1], "slow,") {
 				fmt.Println(slowUpstream(os.Args[i+1]))
+				cleanupTmp()
 				os.Exit(0)
 			}
 			if strings.HasPrefix(os.Args[i+1], "inf,") {
 				fmt.Println(inflight(os.Args[i+1]))
+				cleanupTmp()
 				os.Exit(0)
 			}
 			if strings.HasPrefix(os.Args[i+1], "lin,") {
 				fmt.Println(linearize(os.Args[i+1]))
+				cleanupTmp()
 				os.Exit(0)
 			}
 			fmt.Println(stress(os.Args[i+1]))
+			cleanupTmp()
 			os.Exit(0)
 		}
 	}
